@@ -191,9 +191,13 @@ class C08(Prop):
                   "oracle (ids valid client-bidi and never increasing; an arrival is surfaced iff below the last id sent; no id "
                   "surfaced earlier is at or above an id sent later — the last clause below the saturation point 2^60-1); client: "
                   "H3_ID_ERROR exactly for a non-request id or an id larger than before, and once a GOAWAY was processed send_request "
-                  "returns RemoteClosing without opening a stream, for ever; a request in progress is served (resolve_request "
-                  "returns it) in every state of the shutdown; accept answers None — also right after a refusal during a local "
-                  "shutdown — exactly when no request shown earlier is still in progress")
+                  "returns RemoteClosing without writing a request, for ever — at both gates: a call made then, and a call that was "
+                  "waiting for stream credit and gets its stream then (send_request is two events, call / stream opened; D-08c); a "
+                  "request in progress is served (resolve_request returns it) in every state of the shutdown; accept answers None "
+                  "exactly when no request shown earlier is still in progress, every stream waiting in the transport is one the "
+                  "filter refuses and a stream was refused in this poll or the peer's GOAWAY was processed — and then every waiting "
+                  "stream has had its outcome and the queue is empty (D-08b); a shutdown(n) that answers Ok leaves a GOAWAY in force "
+                  "with an identifier not above the one it computed")
     level_note = ("trusted: Lean kernel + 3 standard axioms; hand model tied to the code by running real h3::server / h3::client "
                   "objects over SimQuic on the same scenario lines (Drv/C08.lean plays the harness tasks); the accept/reject line is "
                   "judged where accept() takes the stream from the transport (R-08); shutdown futures are awaited to completion and "
@@ -201,14 +205,19 @@ class C08(Prop):
     rule = ("cases: server histories with K<=5 (quick) / K<=6 requests, arrivals in order, reversed and swapped, accept driven by "
             "explicit conn.A calls or the accept loop conn.AL, conn.S:n with n in 0..3 inserted at every position and repeated, "
             "completions (HEADERS, resolve, drop), a peer GOAWAY at a random position, plus seeded random histories; observed per "
-            "line, in order: accept / shutdown answers, GOAWAY ids written, refusals (stop_sending + reset codes), and for every "
+            "line, in order: accept / shutdown answers (with the count n of the call: S=<n>), GOAWAY ids written, refusals (stop_sending + "
+            "reset codes), the streams the peer opened (O=<i>, cfg ops=1) and the requests the application dropped (D=<i>) — the judge's "
+            "queue rules (H3.Spec.Goaway.okQueue): one outcome per stream, None only when every opened stream has had its outcome and "
+            "every request shown is done, shutdown = Ok only with a GOAWAY in force within the bound of its count; every order of 3 / 4 "
+            "arrivals around conn.S:n (n <= 3) at every position; and for every "
             "resolve_request of a request shown to the application whether it returned the request (Q=<i>:ok; an error or a "
             "call that never returns is `not served`) — resolve after local shutdown / peer GOAWAY / refusals / None / H3_ID_ERROR; "
             "the judge (engine goawayj = H3.Spec.Goaway.okObs) refuses unknown tokens (BAD:unknown-token); client (cfg ev=1): all "
             "received-id sequences of length<=4 over {0,3,4,8,64} plus sequences with ids 1,2,5,12,16383,16384, driver started "
             "early/late, send_request before/between/after; every send_request result carries the request streams written while "
             "it ran (a refused request must have written nothing: snd.R=err:rclosing/w=-), plus the streams written at the end "
-            "(streams=<written>/<opened empty>); non-trivial = the implementation wrote a GOAWAY, refused a stream, "
+            "(streams=<written>/<opened empty>); client lines with stream credit (cfg bc=<n>, grants gb<n>): calls waiting in poll_open_bidi "
+            "across GOAWAYs, grants before / after the GOAWAY, several calls queued; non-trivial = the implementation wrote a GOAWAY, refused a stream, "
             "returned None/err from accept, or the client driver/send_request reacted to a GOAWAY")
     trusted = ["SimQuic hands streams to accept in the order of the scenario's `o<sid>` ops (QUIC may reorder arrivals; the order is a quantified input)"]
     assumptions = ["peer-opened bidirectional streams have client-initiated bidirectional IDs below 2^62 (transport contract)",
